@@ -242,6 +242,46 @@ impl Case {
         }
         Some(c)
     }
+    /// a case line as sent to the model driver (the `smallest_diverging_case` of a correspondence replay file)
+    fn from_case_line(line: &str) -> Option<Case> {
+        let parts: Vec<&str> = line.split('|').map(|x| x.trim()).collect();
+        if parts.len() != 4 {
+            return None;
+        }
+        let ini: Vec<&str> = parts[0].split_whitespace().collect();
+        let mut c = Case { cfg0: ini.first()?.parse().ok()?, disk: vec![], udict: vec![], fdict: vec![], ops: vec![], sched: vec![], origin: String::new() };
+        let mut i = 1;
+        while i < ini.len() {
+            match ini[i] {
+                "K" => {
+                    c.disk.push((Url::parse(ini.get(i + 1)?)?, Text { tid: ini.get(i + 2)?.parse().ok()?, ident: ini.get(i + 3)?.parse().ok()? }));
+                    i += 4;
+                }
+                "W" => {
+                    c.udict.push(ini.get(i + 1)?.parse().ok()?);
+                    i += 2;
+                }
+                "V" => {
+                    c.fdict.push((Url::parse(ini.get(i + 1)?)?, ini.get(i + 2)?.parse().ok()?));
+                    i += 3;
+                }
+                _ => return None,
+            }
+        }
+        for o in parts[1].split(';').map(|x| x.trim()).filter(|x| !x.is_empty()) {
+            c.ops.push(Op::parse(o)?);
+        }
+        let mut sched = parts[2].split_whitespace();
+        c.origin = match sched.next()? {
+            "b" => "batch-replay".into(),
+            "k" => "replay".into(),
+            _ => return None,
+        };
+        for t in sched {
+            c.sched.push(if t == "A" { K::Admit } else { K::Run(t.parse().ok()?) });
+        }
+        Some(c)
+    }
     fn urls(&self) -> Vec<Url> {
         let mut s = BTreeSet::new();
         for (u, _) in &self.disk {
@@ -1573,6 +1613,7 @@ fn batch_history(r: &mut Rng, len: usize) -> Case {
         // favour one document so that several of its handlers are in flight together
         let i = if r.chance(3, 5) { 0 } else { r.below(docs.len()) };
         let (u, lang) = (docs[i], langs[i]);
+        let many = tid[i] >= 7;
         let mut text = |r: &mut Rng| {
             let t = Text { tid: tid[i], ident: if lang == Lang::C { r.below(3) } else { 0 } };
             tid[i] += 1;
@@ -1586,7 +1627,7 @@ fn batch_history(r: &mut Rng, len: usize) -> Case {
                 st[i] = St::Open { saved: false };
             }
             St::Open { saved } => match r.below(10) {
-                0..=5 if tid[i] < 7 => {
+                0..=5 if !many => {
                     ver[i] += 1 + r.below(2);
                     let t = text(r);
                     c.ops.push(Op::Change(u, t, ver[i]));
@@ -1880,6 +1921,22 @@ fn main() {
     let _ = std::fs::remove_dir_all(&base);
     let mut works: Vec<Work> = vec![];
     for v in &corpus {
+        // a correspondence replay file carries the diverging case lines
+        if let Some(line) = v.get("smallest_diverging_case").and_then(|x| x.get("case")).and_then(|x| x.as_str()) {
+            let mut lines = vec![line.to_string()];
+            for m in v.get("more").and_then(|x| x.as_array()).map(|a| a.as_slice()).unwrap_or(&[]) {
+                if let Some(l) = m.get("case").and_then(|x| x.as_str()) {
+                    lines.push(l.to_string());
+                }
+            }
+            for l in lines {
+                match Case::from_case_line(&l) {
+                    Some(c) => works.push(Work::Exact(c)),
+                    None => rep.fail("bad-input", "case line of the replay file does not parse".into(), json!({"case": l})),
+                }
+            }
+            continue;
+        }
         match Case::from_json(v) {
             Some(mut c) => {
                 if c.origin.is_empty() {
